@@ -63,6 +63,8 @@ m(["C05"], "child-not-dropped", "src/solution_node.rs", "            sn_ref.chil
 m(["C05"], "rule-index-reset", "src/solution_node.rs",
   "                if sn_ref.rule_index >= sn_ref.number_facts_rules { return None; }",
   "                if sn_ref.rule_index >= sn_ref.number_facts_rules { sn_ref.rule_index = 0; return None; }", "R3/field(rule_index)")
+m(["C01"], "answer-text-wrong-position", "src/solutions.rs", "                            out += &format!(\", {} = {}\", name, r_terms[i]);", "                            out += &format!(\", {} = {}\", name, r_terms[r_terms.len() - 1]);", "R8/answer-text-positions")
+m(["C23"], "timeout-message-unconditional", "src/solutions.rs", "    cancel_timer(timer);\n    if query_stopped() {\n        let s = format!(\"Query timed out after {} milliseconds.\", S_TIMEOUT);\n        results.push(s);\n    }", "    cancel_timer(timer);\n    if query_stopped() || results.len() > 64 {\n        let s = format!(\"Query timed out after {} milliseconds.\", S_TIMEOUT);\n        results.push(s);\n    }", "R3/timeout-message-only-when-stopped(solve_all)")
 # ---------------- unify (C06-C09, C13) ----------------
 m(["C06"], "int-diag-ne", "src/unifiable.rs", "                        if self_int == other_int { return Some(Rc::clone(ss)); }", "                        if self_int != other_int { return Some(Rc::clone(ss)); }", "R1/diag(SInteger)")
 m(["C06", "C07"], "atom-int-succeeds", "src/unifiable.rs",
@@ -108,6 +110,9 @@ m(["C14"], "ordering-less-greater", "src/built_in_comparison.rs",
   "            (SInteger(i1), SInteger(i2)) => {\n                if i1.cmp(&i2) == Ordering::Less {", "            (SInteger(i1), SInteger(i2)) => {\n                if i2.cmp(&i1) == Ordering::Less {", "R1/less_than(SInteger,SInteger)")
 m(["C14"], "operands-swapped", "src/built_in_comparison.rs", "    let left = match get_constant(&terms[0], ss) {", "    let left = match get_constant(&terms[terms.len() - 1], ss) {", "R3/operands-in-order")
 m(["C14"], "ge-symbol-maps-to-gt", "src/parse_goals.rs", "            Infix::GreaterThanOrEqual => { pred!(\"greater_than_or_equal\", left, right) },", "            Infix::GreaterThanOrEqual => { pred!(\"greater_than\", left, right) },", "R4/chain(>=)")
+m(["C14"], "infix-operands-swapped", "src/parse_goals.rs", "            Infix::LessThan           => { pred!(\"less_than\", left, right) },", "            Infix::LessThan           => { pred!(\"less_than\", right, left) },", "R4/operands(less_than)")
+m(["C12"], "infix-minus-operands-swapped", "src/parse_terms.rs", "            Infix::Minus    => { sfunction!(\"subtract\", left, right) },", "            Infix::Minus    => { sfunction!(\"subtract\", right, left) },", "R2/operands(subtract)")
+m(["C14", "C12"], "split-returns-right-left", "src/parse_goals.rs", "    return Ok((term1, term2));", "    return Ok((term2, term1));", "R4/left-right-split")
 # ---------------- parsers (C18) ----------------
 m(["C18"], "list-length-guard-removed", "src/s_linked_list.rs", "    if length_chars < 2 {", "    if length_chars < 1 {", "P4")
 m(["C18"], "escape-off-by-one-again", "src/parse_terms.rs", "                    if i + 1 < length_chrs {\n                        i += 1;", "                    if i < length_chrs {\n                        i += 1;", "P3")
